@@ -168,28 +168,46 @@ Qed.
 Lemma strict_prefix_irrefl p : strict_prefix p p = false.
 Proof. induction p as [|x p IH]; cbn; [reflexivity|]. rewrite lbeq_refl; exact IH. Qed.
 
+(* `obj_manager_path` as get_child_mut computes it: the stored path of the last node passed on the
+   way down (the target excluded) that has the ObjectManager interface *)
+Fixpoint mgr_of (n : node) (p : path) (mgr : option path) : option path :=
+  match p with
+  | [] => mgr
+  | i :: rest =>
+      let mgr' := match find_iface OM (ifaces n) with Some _ => Some (npath n) | None => mgr end in
+      match find_child i (children n) with
+      | Some c => mgr_of c rest mgr'
+      | None => mgr'
+      end
+  end.
+
+Lemma mgr_of_new pp rest mgr : mgr_of (new_node pp) rest mgr = mgr.
+Proof. destruct rest; reflexivity. Qed.
+
 (* ---- get_child_mut + mutation: what [with_node] finds, returns and leaves alone *)
 Section WithNode.
   Context {R : Type} (f : node -> option path -> node * R).
 
-  Lemma with_node_spec : forall p n create np mgr n' r,
+  Lemma with_node_full : forall p n create np mgr n' r,
     with_node n p create np mgr f = Some (n', r) ->
     exists c m,
+      m = mgr_of n p mgr /\
       (get_child n p = Some c \/ (get_child n p = None /\ create = true /\ fresh c)) /\
       snd (f c m) = r /\
       get_child n' p = Some (fst (f c m)) /\
       (forall q k, prefix p q = false -> std3 k = false -> ulookup n' q k = ulookup n q k).
   Proof.
     induction p as [|i rest IH]; intros n create np mgr n' r H; cbn in H.
-    - exists n, mgr. split; [left; reflexivity|].
+    - exists n, mgr. split; [reflexivity|]. split; [left; reflexivity|].
       destruct (f n mgr) as [a b]; cbn. inversion H; subst. split; [reflexivity|]. split; [reflexivity|].
       intros q k Hq; cbn in Hq; discriminate.
     - set (mgr' := match find_iface OM (ifaces n) with Some _ => Some (npath n) | None => mgr end) in H.
       destruct (find_child i (children n)) as [c0|] eqn:Hc.
       + destruct (with_node c0 rest create (np ++ [i]) mgr' f) as [[c' r']|] eqn:Hw; [|discriminate].
         inversion H; subst; clear H.
-        destruct (IH _ _ _ _ _ _ Hw) as [c [m [Hfound [Hr [Hget Hframe]]]]].
-        exists c, m. split; [cbn; rewrite Hc; exact Hfound|]. split; [exact Hr|].
+        destruct (IH _ _ _ _ _ _ Hw) as [c [m [Hm [Hfound [Hr [Hget Hframe]]]]]].
+        exists c, m. split; [cbn; rewrite Hc; exact Hm|].
+        split; [cbn; rewrite Hc; exact Hfound|]. split; [exact Hr|].
         split; [cbn; rewrite find_put_child_same; exact Hget|].
         intros q k Hq Hk. unfold ulookup. destruct q as [|j q]; cbn.
         * rewrite ifaces_put_child. reflexivity.
@@ -200,14 +218,15 @@ Section WithNode.
       + destruct create; [|discriminate].
         destruct (with_node (new_node (np ++ [i])) rest true (np ++ [i]) mgr' f) as [[c' r']|] eqn:Hw; [|discriminate].
         inversion H; subst; clear H.
-        destruct (IH _ _ _ _ _ _ Hw) as [c [m [Hfound [Hr [Hget Hframe]]]]].
+        destruct (IH _ _ _ _ _ _ Hw) as [c [m [Hm [Hfound [Hr [Hget Hframe]]]]]].
         assert (Hfresh : fresh c /\ (rest <> [] -> get_child (new_node (np ++ [i])) rest = None)).
         { split.
           - destruct Hfound as [Hf | [_ [_ Hf]]]; [|exact Hf].
             destruct rest as [|j rest']; cbn in Hf; [inversion Hf; apply fresh_new | discriminate].
           - intros Hne. apply get_child_leaf; [reflexivity | exact Hne]. }
         destruct Hfresh as [Hfresh Hleaf].
-        exists c, m. split; [right; cbn; rewrite Hc; repeat split; try reflexivity; apply Hfresh|].
+        exists c, m. split; [cbn; rewrite Hc; rewrite Hm; apply mgr_of_new|].
+        split; [right; cbn; rewrite Hc; repeat split; try reflexivity; apply Hfresh|].
         split; [exact Hr|].
         split; [cbn; rewrite find_put_child_same; exact Hget|].
         intros q k Hq Hk. unfold ulookup. destruct q as [|j q]; cbn.
@@ -217,6 +236,18 @@ Section WithNode.
              cbn in Hq. specialize (Hframe q k Hq Hk). unfold ulookup in Hframe. rewrite Hframe.
              destruct q as [|j q]; cbn; [destruct k; cbn in *; try reflexivity; discriminate | reflexivity].
           -- apply lbeq_false in Eij. rewrite find_put_child_other by congruence. reflexivity.
+  Qed.
+
+  Lemma with_node_spec : forall p n create np mgr n' r,
+    with_node n p create np mgr f = Some (n', r) ->
+    exists c m,
+      (get_child n p = Some c \/ (get_child n p = None /\ create = true /\ fresh c)) /\
+      snd (f c m) = r /\
+      get_child n' p = Some (fst (f c m)) /\
+      (forall q k, prefix p q = false -> std3 k = false -> ulookup n' q k = ulookup n q k).
+  Proof.
+    intros p n create np mgr n' r H.
+    destruct (with_node_full _ _ _ _ _ _ _ H) as [c [m [_ Hrest]]]. exists c, m. exact Hrest.
   Qed.
 
   (* without creation the walk succeeds exactly when the node exists *)
